@@ -123,7 +123,54 @@ func runC05(e *Env) error {
 				}
 			}
 		}
-		c := c05Case{Current: cur.DDL(), Rows: g.rowsSQL(cur, 4), Desired: des.DDL(), Edits: edits, FK: ci%2 == 0}
+		fkOn := ci%2 == 0
+		if ci%5 == 3 {
+			// a populated parent without foreign keys of its own is rebuilt for a non-column reason while a child
+			// refers to it with a cascading action; the child may spell the parent's name in another letter case,
+			// or lose its foreign key in the same apply; the desired definition may list the columns in another order
+			var parents []*sqTable
+			for _, t := range cur.Tables {
+				if len(t.FKs) == 0 && len(uniqueTargets(t)) > 0 && des.table(t.Name) != nil {
+					parents = append(parents, t)
+				}
+			}
+			if len(parents) > 0 && len(cur.Tables) > 1 {
+				p := hx.Pick(r, parents)
+				var child *sqTable
+				for child == nil || child == p {
+					child = hx.Pick(r, cur.Tables)
+				}
+				if dc, dp := des.table(child.Name), des.table(p.Name); dc != nil && dp != nil && len(dp.FKs) == 0 {
+					n := len(child.FKs)
+					g.addFK(child, p)
+					if len(child.FKs) > n {
+						fk := &child.FKs[len(child.FKs)-1]
+						fk.OnDelete, fk.OnUpdate = hx.Pick(r, []string{"CASCADE", "SET NULL"}), ""
+						if r.Chance(1, 2) {
+							fk.RefSpell = strings.ToUpper(p.Name)
+						}
+						for _, cn := range fk.Cols {
+							dc.Cols = append(dc.Cols, *child.col(cn))
+						}
+						if r.Chance(1, 2) {
+							dc.FKs = append(dc.FKs, *fk)
+						} else {
+							edits = append(edits, &sqEdit{"drop-fk", child.Name, "cascading reference to " + p.Name})
+						}
+						dp.Checks = append(dp.Checks, sqCheck{Expr: fmt.Sprintf("id > -%d", 10+r.Intn(9))})
+						edits = append(edits, &sqEdit{"add-check", p.Name, "referenced parent"})
+						fkOn = true
+					}
+				}
+			}
+		}
+		if r.Chance(1, 3) {
+			// the desired definition lists the same columns in another order (not a change)
+			t := hx.Pick(r, des.Tables)
+			hx.Shuffle(r, t.Cols)
+			edits = append(edits, &sqEdit{"reorder-columns", t.Name, ""})
+		}
+		c := c05Case{Current: cur.DDL(), Rows: g.rowsSQL(cur, 4), Desired: des.DDL(), Edits: edits, FK: fkOn}
 		dir := filepath.Join(e.Work, fmt.Sprintf("c05-%d", ci))
 		os.MkdirAll(dir, 0o755)
 		defer os.RemoveAll(dir)
@@ -216,7 +263,7 @@ func c05Run(ctx context.Context, pool *hx.Pool, c *c05Case, cur, des *sqSchema, 
 	}
 	if err := drv.ApplyChanges(ctx, changes); err != nil {
 		es := err.Error()
-		if strings.Contains(es, "constraint failed") || strings.Contains(es, "cannot store") || strings.Contains(es, "datatype mismatch") {
+		if strings.Contains(es, "constraint failed") || strings.Contains(es, "cannot store") || strings.Contains(es, "datatype mismatch") || strings.Contains(es, "type mismatch on DEFAULT") {
 			return "data: rows do not satisfy the desired constraints", touched, viols
 		}
 		add("failing-input", "apply-fails", fmt.Sprintf("apply fails: %v\nplan:\n%s\ncurrent:\n%s\ndesired:\n%s", trunc(es, 300), planText(plan), strings.Join(c.Current, ";\n"), strings.Join(c.Desired, ";\n")), "Props.C05 apply")
